@@ -29,7 +29,7 @@ func (g *Gen) simpleVals(n int) []L.Expr {
 // calleeDef defines a callee of a drawn kind and returns (definition statements, call constructor, signature note).
 // The callee logs what it received (fixed parameters, select('#', ...), the values of ..., the compat arg table)
 // and returns nr of a fixed list of values.
-func (g *Gen) calleeDef() ([]L.Stmt, func(args []L.Expr) *L.CallExpr, string) {
+func (g *Gen) calleeDef() ([]L.Stmt, func(args []L.Expr) *L.CallExpr, string, L.Expr, []L.Expr) {
 	np := g.n(7, "np")
 	vararg := g.n(2, "vararg") == 0
 	nr := g.n(5, "nr")
@@ -84,26 +84,32 @@ func (g *Gen) calleeDef() ([]L.Stmt, func(args []L.Expr) *L.CallExpr, string) {
 	switch g.n(5, "calleekind") {
 	case 0, 1:
 		sig += ":lua"
-		return []L.Stmt{&L.LocalFuncStmt{Name: fname, Fn: fe}}, func(a []L.Expr) *L.CallExpr { return call(name(fname), a...) }, sig
+		return []L.Stmt{&L.LocalFuncStmt{Name: fname, Fn: fe}}, func(a []L.Expr) *L.CallExpr { return call(name(fname), a...) }, sig, name(fname), nil
 	case 2:
 		// method call sugar: obj:m(args) passes obj as the first argument
 		sig += ":method"
 		obj := g.fresh("ob")
 		me := fn(append([]string{"self"}, params...), vararg, blk(append([]L.Stmt{emit(str("self"), bin("==", name("self"), name(obj)))}, body...)...))
 		return []L.Stmt{local1(obj, tbl()), assign1(field(name(obj), "m"), me)},
-			func(a []L.Expr) *L.CallExpr { return mcall(name(obj), "m", a...) }, sig
+			func(a []L.Expr) *L.CallExpr { return mcall(name(obj), "m", a...) }, sig, nil, nil
 	case 3:
 		// reached through __call: the object itself is prepended
 		sig += ":__call"
 		obj := g.fresh("co")
-		ce := fn(append([]string{"self"}, params...), vararg, blk(append([]L.Stmt{emit(str("callee"), call(name("type"), name("self")))}, body...)...))
-		return []L.Stmt{local1(obj, call(name("setmetatable"), tbl(), tbl(kv(str("__call"), ce))))},
-			func(a []L.Expr) *L.CallExpr { return call(name(obj), a...) }, sig
+		// the handler must receive the called object itself (not its handler, not a copy)
+		ce := fn(append([]string{"self"}, params...), vararg, blk(append([]L.Stmt{emit(str("callee"), call(name("type"), name("self")), bin("==", name("self"), name(obj)))}, body...)...))
+		mk := call(name("setmetatable"), tbl(), tbl(kv(str("__call"), ce)))
+		if g.n(3, "udcallee") == 0 {
+			mk = call(name("newud"), tbl(kv(str("__call"), ce)))
+			g.class("call:callable_userdata")
+		}
+		return []L.Stmt{local([]string{obj}), assign1(name(obj), mk)},
+			func(a []L.Expr) *L.CallExpr { return call(name(obj), a...) }, sig, name(obj), nil
 	default:
 		// host (Go) callee returning the last r of its arguments
 		sig = "host:r" + strconv.Itoa(nr)
 		r := nr
-		return nil, func(a []L.Expr) *L.CallExpr { return call(name("hostf"), append([]L.Expr{num(float64(r))}, a...)...) }, sig
+		return nil, func(a []L.Expr) *L.CallExpr { return call(name("hostf"), append([]L.Expr{num(float64(r))}, a...)...) }, sig, name("hostf"), []L.Expr{num(float64(r))}
 	}
 }
 
@@ -133,7 +139,7 @@ func (g *Gen) multiSource() (L.Expr, []L.Stmt) {
 }
 
 func (g *Gen) tplCallShape() []L.Stmt {
-	defs, mk, sig := g.calleeDef()
+	defs, mk, sig, fval, fpre := g.calleeDef()
 	nargs := g.n(9, "nargs")
 	args := g.simpleVals(nargs)
 	if g.n(3, "lastmulti") == 0 {
@@ -149,6 +155,42 @@ func (g *Gen) tplCallShape() []L.Stmt {
 	}
 	ce := mk(args)
 	out := append([]L.Stmt{}, defs...)
+	// the route by which the call is made: a call expression, or one of the host-side call paths
+	if fval != nil {
+		full := append(append([]L.Expr{fval}, fpre...), args...)
+		route := g.n(12, "callroute")
+		switch route {
+		case 0:
+			ce = call(name("pcall"), full...)
+			sig += ":via_pcall"
+		case 1:
+			ce = call(name("hostcall"), full...)
+			sig += ":via_hostcall"
+		case 2:
+			ce = call(name("hostpcall"), full...)
+			sig += ":via_hostpcall"
+		case 3:
+			// as the iterator of a generic for: called with exactly (state, control)
+			sig += ":as_for_iterator"
+			g.class("callsig:" + sig)
+			st, ctl := L.Expr(&L.NilExpr{}), L.Expr(&L.NilExpr{})
+			if len(args) > 0 {
+				st = paren(args[0])
+			}
+			if len(args) > 1 {
+				ctl = paren(args[1])
+			}
+			if len(fpre) > 0 {
+				st, ctl = fpre[0], str("ctl")
+			}
+			out = append(out, &L.GenForStmt{Names: []string{"i0", "i1", "i2"}, Exprs: []L.Expr{fval, st, ctl}, Body: blk(emit(str("iteration"), name("i0"), name("i1"), name("i2")), &L.BreakStmt{})}, emit(str("after for")))
+			return []L.Stmt{&L.DoStmt{Body: blk(out...)}}
+		case 4:
+			// through select/unpack-free library callbacks that call back with fixed arguments
+			sig += ":via_xpcall"
+			ce = call(name("xpcall"), fn(nil, g.fn.vararg, blk(ret(mk(args)))), name("tostring"))
+		}
+	}
 	ctx := g.n(11, "resctx")
 	g.class("callsig:" + sig + ":ctx" + strconv.Itoa(ctx))
 	switch ctx {
